@@ -90,7 +90,8 @@ pub(crate) fn validate_packet_outbound(packet: &MqttPacket) -> GneissResult<()> 
 pub(crate) fn validate_packet_outbound_internal(packet: &MqttPacket, context: &OutboundValidationContext) -> GneissResult<()> {
     match packet {
         MqttPacket::Auth(auth) => { validate_auth_packet_outbound_internal(auth, context) }
-        MqttPacket::Connect(_) => { Ok(()) }
+        // the CONNECT is built from user-supplied connect options that no submission-time check ever sees
+        MqttPacket::Connect(connect) => { validate_connect_packet_outbound(connect) }
         MqttPacket::Disconnect(disconnect) => { validate_disconnect_packet_outbound_internal(disconnect, context) }
         MqttPacket::Pingreq(_) => { Ok(()) }
         MqttPacket::Puback(puback) => { validate_puback_packet_outbound_internal(puback, context) }
